@@ -406,6 +406,7 @@ def run_generic(ctx):
     if ctx.prop == "C05":
         views_mc(ctx)
         views_proof(ctx)
+        buffer_mc(ctx)
     if ctx.prop == "C11":
         opencode_mc(ctx)
     cases = list(ctx.cases.values())
@@ -842,7 +843,7 @@ CONSTANTS
 CHECK_DEADLOCK FALSE
 """
 DESIGN_INVS = ("NoFault NoInternalError CkptDiscipline CkptBelowStack TokensOrdered LinesMatch PendNonEmpty DoneShape "
-               "LitPartition DoneBalanced DoneErrPairs")
+               "LitPartition DoneBalanced DoneErrPairs BufferOK")
 
 
 def mc_run(workdir, name, fs, stack, window, emit, invs=DESIGN_INVS, progress=True, timeout=1800, workers=16, calls=9,
@@ -989,6 +990,19 @@ def views_proof(ctx):
     if not m:
         log("[proof] tlapm output tail: " + out[-400:].replace("\n", " | "))
     shutil.rmtree(d, ignore_errors=True)
+
+
+def buffer_mc(ctx):
+    """The hypotheses of the proved theorems (BufOK2) as the invariant BufferOK of the operational model: all inputs of
+    at most N fragments (R1), two fragment sets in the quick tier, all five in the thorough tier."""
+    runs = []
+    for fs, n in ([("open", 3), ("macrostat", 2)] if ctx.quick() else [(f, 3) for f in FRAGSETS]):
+        st, _ = mc_run(ctx.dir, "buf-%s" % fs, fs, 40, 9, False, calls=9, r1_frags=n, invs="BufferOK NoFault", progress=False)
+        runs.append(st)
+        ctx.states += st["distinct"]
+        ctx.transitions += st["states"]
+        log("[mc] BufferOK R1 %s all inputs of <= %d fragments: %d distinct states, %.0fs, holds" % (fs, n, st["distinct"], st["wall_s"]))
+    ctx.extra["buffer_invariant_model_checking"] = {"module": "spec/MC_SasLexer.tla", "invariant": "BufferOK", "runs": runs}
 
 
 def views_mc(ctx):
